@@ -477,7 +477,12 @@ retry_after_fb:
             if (bnv_cb(bn->get_version_ptr(), v_at_fb)) {
                 return status::WARN_ABORTED_BY_USER;
             }
-            key_tuple child_kt = right_to_left ? key_tuple::max() : key_tuple::min();
+            // right_to_left starts above every possible entry of the child layer. key_tuple::max() is
+            // not above a link entry whose slice is 0xFF * 8 (it is equal to it), so the start-side
+            // check would skip that entry together with its whole subtree.
+            key_tuple child_kt = right_to_left
+                    ? key_tuple{~key_slice_type{0}, sizeof(key_slice_type) + 2}
+                    : key_tuple::min();
             auto child_border_node_and_v =
                 find_border(child, child_kt.get_key_slice(), child_kt.get_key_length(), check_status);
             border_node* target_border = std::get<0>(child_border_node_and_v);
